@@ -818,6 +818,52 @@ func (e *Env) evalCall(n *CCall) V {
 			a := e.eval(n.Args[0])
 			b := e.eval(n.Args[1])
 			return V{T: boolT, S: x.errIsTerm(a.S, b.S)}
+		case "called", "retof", "argof", "seqof":
+			// ghost call log of the enclosing function: called("f#k") is the condition under
+			// which the k-th call of f was executed; retof / argof give its result and
+			// arguments; seqof its position in execution order
+			ks, ok := n.Args[0].(*CStr)
+			if e.frame == nil {
+				// at a call site the callee's call log does not exist: such clauses are internal
+				// to the callee's own verification and are skipped by callContract
+				panic(contractError("call-log: clause refers to the callee's own call log"))
+			}
+			if !ok {
+				e.fail("%s needs a string key \"callee#k\"", id.Name)
+			}
+			key := ks.Val
+			if !strings.Contains(key, "#") {
+				key += "#1"
+			}
+			rec := e.frame.callLog[key]
+			if rec == nil {
+				if id.Name == "called" {
+					return V{T: boolT, S: "false"}
+				}
+				e.fail("%s: no call %s was executed before this point (calls so far: %s)", id.Name, key, strings.Join(sortedKeys(e.frame.callLog), ", "))
+			}
+			switch id.Name {
+			case "called":
+				return V{T: boolT, S: rec.guard}
+			case "seqof":
+				return mathV(fmt.Sprint(rec.seq))
+			case "retof":
+				if rec.res.Tup != nil {
+					return V{Tup: rec.res.Tup}
+				}
+				return rec.res
+			default:
+				ci, ok := n.Args[1].(*CInt)
+				if !ok {
+					e.fail("argof needs a literal argument index")
+				}
+				var idx int
+				fmt.Sscanf(ci.Val, "%d", &idx)
+				if idx >= len(rec.args) {
+					e.fail("argof: call %s has %d arguments", key, len(rec.args))
+				}
+				return rec.args[idx]
+			}
 		case "fresh":
 			// fresh(x): x was allocated after the function's entry state
 			v := e.eval(n.Args[0])
